@@ -165,6 +165,19 @@ def records (args out : List String) : Option (List StepRec) :=
     match parseOps rest with
     | some ops => runOps ops out {} epochNs "-" "-" none
     | none => none
+  -- `whist`: the same history through the real reporter component over real sockets.  On the wire a rejected datagram
+  -- and a silently accepted one look the same (no answer): the implementation's `none` stands for either
+  | "whist" :: rest =>
+    match parseOps rest with
+    | some ops =>
+      -- the UDP server reads a datagram into a buffer of `BufferSize` bytes (2048: the component's default, which the
+      -- harness configures): what does not fit is cut off before the dispatcher sees it
+      let ops := ops.map fun o => match o with | .dg ip port payload => Op.dg ip port (payload.take 2048) | o => o
+      (runOps ops out {} epochNs "-" "-" none).map fun recs => recs.map fun r =>
+        match r.outcome with
+        | .err => if r.implOutcome == "none" then { r with implOutcome := "err" } else r
+        | _ => r
+    | none => none
   | _ => none
 
 def StepRec.same (r : StepRec) : Bool := r.ucDiff.isNone && sameOutcome r.implOutcome r.outcome && r.implAfter == r.modelAfter
